@@ -70,17 +70,22 @@ def amoco_frames_of(frame):
     while frame is not None:
         fn = frame.f_code.co_filename
         if "/amoco/" in fn:
-            out.append((relname(fn), frame.f_code.co_name))
+            out.append((relname(fn), frame.f_code.co_qualname))
         frame = frame.f_back
     return out
 
 
+STAGE_CLASSES = {"ELF": ("Elf.",), "PE": ("PE.",), "MachO": ("MachO.",), "COFF": ("COFF.",),
+                 "HEX": ("HEX.", "HEXline."), "SREC": ("SREC.", "SRECline.")}
+
+
 def pick_frame(frames, stage):
-    """the frame a finding is keyed with: innermost amoco frame; for a timeout the innermost frame of the
-    stage's own module (the loop that does not end), since the deeper frames only say when the timer fired"""
+    """the frame a finding is keyed with: the innermost amoco frame (file relative to the package : qualified
+    function name); for a timeout the innermost method of the stage's parser class (the loop that does not end),
+    since the deeper frames only say where the timer happened to fire"""
     mod = STAGE_MODULE.get(stage)
     for f in frames:
-        if f[0] == mod:
+        if f[0] == mod and f[1].startswith(STAGE_CLASSES[stage]):
             return "%s:%s" % f
     return "%s:%s" % frames[0] if frames else "?:?"
 
@@ -125,7 +130,7 @@ def on_prof(sig, frame):
 
 def on_raise(code, offset, exc):
     if S.active and isinstance(exc, (MemoryError, RecursionError)) and S.exh is None:
-        S.exh = (tname(type(exc)), relname(code.co_filename), code.co_name)
+        S.exh = (tname(type(exc)), relname(code.co_filename), code.co_qualname)
         S.wstage = stage_of(S.ev)
 
 
@@ -204,8 +209,12 @@ def finish_events(res, exc, done, jump):
                 "frame": ("%s:%s" % (S.exh[1], S.exh[2])) if S.exh else "?:?", "escaped": exc is not None,
                 "rss_jump_kb": jump}
     elif exc is not None:
-        tb = traceback.extract_tb(exc.__traceback__)
-        fr = [(relname(f.filename), f.name) for f in tb if "/amoco/" in f.filename]
+        fr, tb = [], exc.__traceback__
+        while tb is not None:
+            co = tb.tb_frame.f_code
+            if "/amoco/" in co.co_filename:
+                fr.append((relname(co.co_filename), co.co_qualname))
+            tb = tb.tb_next
         fr.reverse()
         ev.append({"a": "raise", "f": "-", "e": tname(type(exc)), "cur": 0})
         info = {"kind": "raise", "stage": stage, "exc": tname(type(exc)), "frame": pick_frame(fr, None),
